@@ -9,4 +9,5 @@ fi
 git reset -q   # 3way stages; keep as working-tree change only
 cd /verif && ./check $PROP --tier $TIER --no-evidence > /var/tmp/vs/seedrun_${ID}_${PROP}.log 2>&1; rc=$?
 git -C /repo checkout -q -- .
+printf "%s\t%s\t%s\t%s\t%s\t%s\n" "$ID" "$PROP" "$TIER" "$rc" "$(git -C /verif rev-parse --short HEAD)" "$(grep -E '^(VIOLATION|UNDECIDED|KNOWN)' /var/tmp/vs/seedrun_${ID}_${PROP}.log | sed -e 's/replay=\/verif\/replay\///' | cut -c1-150 | tr '\n' '|')" >> /verif/seeded/results.tsv
 echo "$ID $PROP tier=$TIER rc=$rc :: $(grep -E '^(VIOLATION|UNDECIDED|KNOWN)' /var/tmp/vs/seedrun_${ID}_${PROP}.log | cut -c1-160 | tr '\n' '|')"
